@@ -33,6 +33,13 @@ class Facts:
     def impls_of(self, adt_path, trait=None):
         return [i for i in self.impls if i.get("self_adt") == adt_path and (trait is None or i.get("trait") == trait)]
 
+    def impl_items(self, self_adt, trait):
+        """Names of the items defined by `impl <trait> for <self_adt>` (None if there is no such impl)."""
+        for i in self.impls:
+            if i.get("self_adt") == self_adt and i.get("trait") == trait:
+                return sorted(x["name"] for x in i.get("items", []))
+        return None
+
     def non_test(self, body):
         return "::tests::" not in body["def"]
 
